@@ -286,6 +286,9 @@ func vvGenOp(r *rand.Rand, v vvVal, depth int) *vvOp {
 			o.arr = make([][]byte, r.Intn(4))
 			for i := range o.arr {
 				o.arr[i] = vvSmallBytes(r, 1)
+				if r.Intn(10) == 0 {
+					o.arr[i] = []byte{} // zero-length elements are ordinary elements
+				}
 			}
 		case k == 3:
 			o.kind = "UNSET"
